@@ -1,7 +1,7 @@
 use crate::{device::Device, expr::Expr, instruction::register::Reg8, parser::SegmentType};
 
 use std::{
-    cell::RefCell,
+    cell::{Cell, RefCell},
     collections::{BTreeSet, HashMap},
     path::PathBuf,
     rc::Rc,
@@ -68,6 +68,8 @@ pub struct CommonContext {
     // directories in which included files are looked for, known at the end of parsing:
     // includes in bodies of macros are processed later
     pub include_paths: Rc<RefCell<BTreeSet<PathBuf>>>,
+    // count of files which are read for this build
+    pub included_files: Rc<Cell<usize>>,
 }
 
 impl CommonContext {
@@ -81,6 +83,7 @@ impl CommonContext {
             special: Rc::new(RefCell::new(hashmap! {})),
             device: Rc::new(RefCell::new(Some(Device::new(0)))),
             include_paths: Rc::new(RefCell::new(BTreeSet::new())),
+            included_files: Rc::new(Cell::new(0)),
         }
     }
 }
